@@ -2119,6 +2119,12 @@ def loop_depth(f, bb):
     return sum(1 for (h, body) in cache if bb in body)
 
 
+def loop_headers_of(f, bb):
+    """header blocks of the natural loops whose body contains `bb`"""
+    loop_depth(f, bb)
+    return [h for (h, body) in f._loops if bb in body]
+
+
 def access_root(fn, local, hops=8):
     """the local a place base is reached through: follows Deref/DerefMut/as_ref/as_mut calls and `&`/copies back to the
     guard / parameter local (single definitions only). Returns a local number or None."""
